@@ -82,14 +82,27 @@ Emit == PrintT(<<"BEH", ToJson([ignored |-> ignored, nodata |-> nodata, k |-> k]
 ENext == FALSE /\ UNCHANGED vars
 
 \* ---- lattice grid (indices; the driver owns the real values, better = larger index)
-CONSTANTS NA, NL, NS, NK, Strategies, Adaptive
+\* Adaptive bounds are part of the input: each of the two getters (latency, sync) is "off" or returns one
+\* of the window kinds below through the selector's getter interface.  normalizeLatency / normalizeSync use
+\* a window only if it is finite with 0 < p10 < p90 (WindowUsable); every other window - degenerate
+\* (p10 = p90), reversed, zero, negative, NaN, infinite - must fall back to the fixed maximum, i.e. behave
+\* exactly as if the getter were off.  Whatever the window: every weight is a finite number in
+\* [minChance, 1], one-coordinate improvements never lower it, and the draw obeys the interval rule.
+CONSTANTS NA, NL, NS, NK, Strategies, WKinds, WinMode
+AllWKinds == {"off", "valid", "tight", "equal", "reversed", "zero", "bothzero", "negative", "nan10", "nan90", "inf90", "neginf10"}
+WindowUsable(w) == w \in {"valid", "tight"}
 Points == [a : 0..NA, l : 0..NL, s : 0..NS, k : 0..NK]
 Coords == {"a", "l", "s", "k"}
 CanImprove(p, co) == CASE co = "a" -> p.a < NA [] co = "l" -> p.l < NL [] co = "s" -> p.s < NS [] co = "k" -> p.k < NK
 LatticePairs == {<<p.a, p.l, p.s, p.k, co>> : p \in Points, co \in Coords}
 LegalPair(q) == /\ q[1] \in 0..NA /\ q[2] \in 0..NL /\ q[3] \in 0..NS /\ q[4] \in 0..NK /\ q[5] \in Coords
                 /\ CanImprove([a |-> q[1], l |-> q[2], s |-> q[3], k |-> q[4]], q[5])
+\* "diag": one getter at a time plus both getters with the same kind; "full": every combination
+LatticeGroups == {g \in [strategy : Strategies, lw : WKinds, sw : WKinds] :
+                    WinMode = "full" \/ g.lw = "off" \/ g.sw = "off" \/ g.lw = g.sw}
+LegalGroup(st, lw, sw) == st \in Strategies /\ lw \in AllWKinds /\ sw \in AllWKinds
 LInit == /\ ignored = {} /\ nodata = {} /\ k = [p \in PS |-> 0] /\ scored = <<>> /\ cell = 0 /\ pick = ""
-         /\ phase \in [strategy : Strategies, adaptive : Adaptive]
-LEmit == PrintT(<<"BEH", ToJson([g |-> phase, pairs |-> {q \in LatticePairs : LegalPair(q)}])>>)
+         /\ phase \in {"pairs"} \cup {ToJson(g) : g \in LatticeGroups}
+LEmit == IF phase = "pairs" THEN PrintT(<<"BEH", ToJson([pairs |-> {q \in LatticePairs : LegalPair(q)}])>>)
+         ELSE PrintT(<<"BEH", phase>>)
 =============================================================================
